@@ -84,7 +84,10 @@ GEOMS = {
         ([0.1, -0.3], [1 / 24, 1 / 48])],
     3: [([0.0, 0.0, 0.0], [0.25, 0.25, 0.25]), ([-0.5, 1.25, 2.0], [0.5, 0.25, 0.125]),
         ([1.0, -2.0, 0.5], [0.125, 0.5, 0.25]),
-        ([0.1, -0.3, 1.7], [1 / 24, 1 / 48, 1 / 24])],
+        ([0.1, -0.3, 1.7], [1 / 24, 1 / 48, 1 / 24]),
+        # index 4 (only where a check asks for it, with header_digits=6): thirds, so that six-digit spellings of consecutive
+        # levels' cell sizes are not exactly a factor two apart (0.0833333 / 0.0416667 = 1.9999976)
+        ([0.1, -0.3, 1.7], [1 / 12, 1 / 12, 1 / 12])],
 }
 
 FIELD_SETS = [
@@ -106,6 +109,14 @@ class Mesh:
 
     def nboxes(self):
         return [len(b) for b in self.boxes]
+
+
+def deep_mesh(nlev=11, ndims=2):
+    """nlev levels of one 2-cell-wide box each, every level refining the first cell of the one below: level numbers with two
+    digits (Level_10) at the cost of a handful of cells.  For the reader only: a covering grid of the finest level is huge."""
+    lo = (0,) * ndims
+    hi = (1,) * ndims
+    return Mesh('%dd-%dlev-deep' % (ndims, nlev), ndims, (2,) * ndims, [[(lo, hi)] for _ in range(nlev)])
 
 
 def curated_meshes():
